@@ -393,7 +393,13 @@ def install(spec: Spec):
         ex.ghost_set('task_done_calls', mk_int(ex.ghost('task_done_calls').term + 1))
         return mk_none()
 
-    PE_RAISES = [RaisesClause('CancelledError', label='cancelled', tags=['C10', 'C16']),
+    spec.ghosts['mark_attempts'] = parse_ty('int')          # calls of event_mark_complete_if_all_handlers_completed() made by process_event activations of this task
+    spec.ghosts['pe_handlers_entered'] = parse_ty('int')    # process_event activations of this task that reached their handler phase
+    PE_RAISES = [RaisesClause('CancelledError', label='cancelled', tags=['C10', 'C16'],
+                              # C10/C03 (second witness of F5): a cancellation that interrupts the handler phase must not abandon the event with only
+                              # finished results and a completion signal nobody will set: completion is attempted before the cancellation is passed on
+                              ensures=[('completion_attempted_before_passing_the_cancellation_on',
+                                        'implies(pe_handlers_entered > old(pe_handlers_entered), mark_attempts > old(mark_attempts))', ['C10', 'C03'])]),
                  RaisesClause('RuntimeError', label='recursion_guard', tags=['C01', 'C03', 'C11', 'C15'], origin='call:EventBus._get_applicable_handlers', caller_only=True),
                  RaisesClause('Exception', label='unexpected', caller_only=True)]
     spec.ghosts['wal_calls'] = parse_ty('int')   # _default_wal_handler activations started by this task (task-owned)
@@ -403,6 +409,10 @@ def install(spec: Spec):
 
     def pe_before_handlers(ex, n):
         ex.st.flags['handlers_phase'] = 'running'
+        ex.ghost_set('pe_handlers_entered', mk_int(ex.ghost('pe_handlers_entered').term + 1))
+
+    def pe_mark_count(ex, n):
+        ex.ghost_set('mark_attempts', mk_int(ex.ghost('mark_attempts').term + 1))
 
     def pe_wal_pre(ex, n):
         # C17: exactly one append per processed event, after that event's handlers on this bus have finished
@@ -429,9 +439,10 @@ def install(spec: Spec):
             requires=[('lock_held', "ctx('holds_global_lock')", ['C06', 'C02']), ('in_loop', 'loop_running()', [])],
             modifies=[('event_results', '*'), ('status', '*'), ('result', '*'), ('error', '*'), ('started_at', '*'), ('completed_at', '*'), ('_handler_completed_signal', '*'),
                       ('ev_set', '*'), ('task_done', '*'), ('task_cancel_requested', '*'), ('event_processed_at', '*'), ('set_members', '*'), ('_event_completed_signal', '*'), ('event_history', '*')],
-            ghost_modifies=['processed', 'invoked', 'eh_calls', 'spawned_tasks', 'wal_calls', 'wal_lines', 'wal_opens', 'cancel_walk_calls'],
+            ghost_modifies=['processed', 'invoked', 'eh_calls', 'spawned_tasks', 'wal_calls', 'mark_attempts', 'pe_handlers_entered', 'wal_lines', 'wal_opens', 'cancel_walk_calls'],
             callsites={'self._get_applicable_handlers': {'pre': pe_first_stmt, 'ghost_writes': ['processed']},
-                       'self._execute_handlers': {'pre': pe_before_handlers},
+                       'self._execute_handlers': {'pre': pe_before_handlers, 'ghost_writes': ['pe_handlers_entered']},
+                       'event.event_mark_complete_if_all_handlers_completed': {'pre': pe_mark_count, 'ghost_writes': ['mark_attempts']},
                        'self._default_log_handler': {'pre': lambda ex, n: ex.st.flags.__setitem__('handlers_phase', 'done')},
                        'self._default_wal_handler': {'pre': pe_wal_pre, 'ghost_writes': ['wal_calls']},
                        'event.event_result_update': {'pre': pe_pending_result_pre}},
@@ -454,7 +465,7 @@ def install(spec: Spec):
             modifies=[('q_items', '*'), ('q_unfinished', '*'), ('ev_set', '*'), ('task_done', '*'), ('task_cancel_requested', '*'), ('_depth', '*'),
                       ('_semaphore', '*'), ('_loop', '*'), ('sem_value', '*'), ('sem_loop', '*'), ('g$global_lock', '*'), ('event_results', '*'), ('status', '*'), ('result', '*'), ('error', '*'),
                       ('started_at', '*'), ('completed_at', '*'), ('_handler_completed_signal', '*'), ('event_processed_at', '*'), ('set_members', '*'), ('_event_completed_signal', '*'), ('event_history', '*')],
-            ghost_modifies=['dequeued', 'processed', 'task_done_calls', 'permits_held', 'invoked', 'eh_calls', 'spawned_tasks', 'wal_calls', 'wal_lines', 'wal_opens', 'cancel_walk_calls'],
+            ghost_modifies=['dequeued', 'processed', 'task_done_calls', 'permits_held', 'invoked', 'eh_calls', 'spawned_tasks', 'wal_calls', 'mark_attempts', 'pe_handlers_entered', 'wal_lines', 'wal_opens', 'cancel_walk_calls'],
             callsites={'self.event_queue.task_done': {'model': task_done_model, 'writes': ['q_unfinished'], 'ghost_writes': ['task_done_calls']}},
             exits_ensure=[
                 ('no_task_done_for_a_given_event', 'implies(old(event) is not None, task_done_calls == old(task_done_calls))', ['C15']),
@@ -501,7 +512,7 @@ def install(spec: Spec):
             modifies=[('_is_running', 'self')] + [('q_items', '*'), ('q_unfinished', '*'), ('ev_set', '*'), ('task_done', '*'), ('task_cancel_requested', '*'), ('_depth', '*'),
                       ('_semaphore', '*'), ('_loop', '*'), ('sem_value', '*'), ('sem_loop', '*'), ('g$global_lock', '*'), ('event_results', '*'), ('status', '*'), ('result', '*'), ('error', '*'),
                       ('started_at', '*'), ('completed_at', '*'), ('_handler_completed_signal', '*'), ('event_processed_at', '*'), ('set_members', '*'), ('_event_completed_signal', '*'), ('event_history', '*')],
-            ghost_modifies=['dequeued', 'processed', 'task_done_calls', 'permits_held', 'invoked', 'eh_calls', 'spawned_tasks', 'wal_calls', 'wal_lines', 'wal_opens', 'cancel_walk_calls'],
+            ghost_modifies=['dequeued', 'processed', 'task_done_calls', 'permits_held', 'invoked', 'eh_calls', 'spawned_tasks', 'wal_calls', 'mark_attempts', 'pe_handlers_entered', 'wal_lines', 'wal_opens', 'cancel_walk_calls'],
             callsites={'self.step': {'pre': runloop_step_pre}, 'self._on_idle.set': {'pre': idle_set_pre}},
             exit_hook=runloop_exit,
             loops={0: {'inv': [('started', 'self._on_idle is not None and self.event_queue is not None', []),
